@@ -319,7 +319,8 @@ func c12FeederR(name string, n int, hold bool, rejects int) *e2x.Scenario {
 }
 
 // c12FeederK: the datagrams that never reach the handler are given by kind: "formerr" / "notimp" (answered by the
-// accept policy), "runt<k>" (k < 12 octets: reported to the invalid-message callback) — each leaves the read loop on
+// accept policy), "undecodable" (passes the policy, fails to decode: reported and answered FORMERR), "runt<k>" (k < 12
+// octets: reported to the invalid-message callback) — each leaves the read loop on
 // its own path, and each path hands its receive buffer back to the pool.
 func c12FeederK(name string, n int, hold bool, kinds []string) *e2x.Scenario {
 	rejects := len(kinds)
@@ -366,6 +367,8 @@ func c12FeederK(name string, n int, hold bool, kinds []string) *e2x.Scenario {
 						b[5] = 2 // QDCOUNT 2 with one question: FORMERR
 					case kind == "notimp":
 						b[2] = b[2]&^0x78 | 3<<3 // opcode 3: NOTIMP
+					case kind == "undecodable":
+						b = b[:len(b)-3] // passes the accept policy (header intact, QDCOUNT 1), the question is cut short: decode error, FORMERR
 					case strings.HasPrefix(kind, "runt"):
 						var k int
 						fmt.Sscanf(kind, "runt%d", &k)
@@ -444,6 +447,8 @@ func c12Spaces(c *fw.Ctx) {
 		{c12Feeder("e2/recycle/pc/2-datagrams", 2, false), 3, 5},      // b=5: 5.1 M, 138 s
 		{c12FeederR("e2/recycle/pc/rejected+2-datagrams-held", 2, true, 1), 2, 3},
 		{c12FeederR("e2/recycle/pc/2-rejected+2-datagrams", 2, false, 2), 1, 2},
+		{c12FeederK("e2/recycle/pc/undecodable+2-datagrams-held", 2, true, []string{"undecodable"}), 2, 3},
+		{c12FeederK("e2/recycle/pc/undecodable+formerr+2-datagrams", 2, false, []string{"undecodable", "formerr"}), 1, 2},
 		{c12FeederK("e2/recycle/pc/runt+2-datagrams", 2, false, []string{"runt5"}), 2, 3},
 		{c12FeederK("e2/recycle/pc/2-runts+2-datagrams-held", 2, true, []string{"runt0", "runt11"}), 1, 2},
 		{c12Crosstalk("e2/crosstalk/pc/2-clients", "pc", 2, 0), 1, 2}, // b=2: 3.2 M, 45 s
